@@ -210,6 +210,17 @@ class C06(Prop):
             res.evals += len(closure(errors))
             if len(res.labels) > n0:
                 res.nontrivial = True
+            if errors and not res.failures:
+                # errors that have been handed to other parts of the library and back: filed in an ErrorTree, ranked by
+                # best_match / relevance, printed -- they still say where they are
+                try:
+                    impl.exceptions.ErrorTree(errors)
+                    impl.exceptions.best_match(iter(errors))
+                    sorted(errors, key=impl.exceptions.relevance)
+                    [str(e) for e in errors]
+                except Exception:
+                    pass
+                check_errors(res, d, s, x, errors, tag="after-tree-and-ranking")
             if any(e.context for e in errors) and not res.failures and res.labels.count("outliving-errors") < 6:
                 # errors that outlive the ones they came with: what best_match hands back, what jsonschema.validate
                 # raises, and context errors kept while their parents are let go
